@@ -2,6 +2,7 @@ package main
 
 import (
 	"fmt"
+	"sort"
 	"strings"
 )
 
@@ -284,16 +285,35 @@ func (g *Gen) genC14(n int) error {
 			// first opens of an uncached field by several goroutines at once, all with the same
 			// exclusion bitmap: winner and losers of the race answer alike
 			nd := len(b.Docs)
-			for r := 0; r < g.tierN(50, 120); r++ {
+			for r := 0; r < g.tierN(80, 200); r++ {
 				o2 := g.fresh("o")
 				g.emit("open %s %s", o2, f)
 				g.alias(o2, s)
 				hp := g.fresh("h")
-				ex := intList([]int{g.r.Intn(nd)})
-				if g.chance(0.5) {
-					ex = g.randDrops(nd)
-				}
+				// exclusions that matter: documents that do carry vectors of the field
 				fn := g.pick([]string{"vecA", "vecB"})
+				var owners []int
+				for d := 0; d < nd; d++ {
+					if vecOfDoc(b, d, fn) != nil {
+						owners = append(owners, d)
+					}
+				}
+				if len(owners) == 0 {
+					fn = "vecA"
+					for d := 0; d < nd; d++ {
+						if vecOfDoc(b, d, fn) != nil {
+							owners = append(owners, d)
+						}
+					}
+				}
+				ex := g.randDrops(nd)
+				if len(owners) > 0 {
+					g.r.Shuffle(len(owners), func(a, c int) { owners[a], owners[c] = owners[c], owners[a] })
+					cut := owners[:1+g.r.Intn(len(owners))]
+					sorted := append([]int(nil), cut...)
+					sort.Ints(sorted)
+					ex = intList(sorted)
+				}
 				g.emit("par %d rounds=1 ordered=1", 8+g.r.Intn(9))
 				g.emit("vopen %s %s %s filt=g ex=%s", hp, o2, fn, ex)
 				g.emit("vsearch %s q=%s k=%d", hp, g.randQuery(2), nd*3)
